@@ -11,6 +11,12 @@ for line in open(os.path.join(HERE, 'properties.jsonl')):
 
 # id -> (technique, level text, level note, design ref)
 CHECKS = {
+ 'C01': ('reference-model oracle over ASTs of the stratified grammar + blank metamorphic relation + recogniser-decided ill-formed edits + sys.monitoring step budget',
+         'Generated well-formed expressions (every precedence level, comparison, function, unary-sign branch, nesting >= 3) are solved by the real ExpressionSolver and compared with an independent evaluator of the documented step order; blank-free and blank-rich renderings must agree; single-edit ill-formed variants (parenthesis, arity, deleted operand) must raise unless an independent recogniser says they are still well-formed; a PY_START|JUMP counter turns non-termination into a logical-step verdict.',
+         'Trusts vt/refmodel/solver_ref.py; exponent-notation numbers and arithmetic on truth values are outside the grammar; rtol 1e-9.', '5/C01'),
+ 'C02': ('differential twin: one reused solver instance against a fresh instance per expression, with input-driven fault drivers',
+         'Histories of 2-12 solves on ONE instance (default table, custom atom with custom steps, custom operators, unit-expression configuration, operator subset) mix valid expressions with failures at every stage (unknown atom at token j, missing operand, unbalanced parenthesis, wrong arity, nested failure, atom constructor raising on its n-th call); every outcome (value or exception type+args) must equal that of a fresh instance.',
+         'Each instance gets its own copy of operator table and step list; complex results compared component-wise.', '5/C02'),
  'C03': ('reference-model oracle (units_ref) over exhaustive prefix x symbol atoms and generated compounds; rejection oracle by decomposition',
          'Every (prefix|none) x table-symbol string and all #system symbols are enumerated, thousands of generated products/quotients/groups and hostile strings are parsed by the real code and compared (factor rtol 1e-10, dimensions exact, unit map, round trip) with an independent structural model that never parses text. Held on the executions observed.',
          'Trusts the published tables as read once by vt/refmodel/units_ref.py and float comparison at rtol 1e-10.', '5/C03'),
@@ -32,6 +38,12 @@ CHECKS = {
  'C09': ('event-trace monitor: wrappers on UnitEnvironment.__init__/close and DIP.parse record table digests; offline trace checker',
          'Histories of nested/repeated/failing unit scopes and DIP parses with $unit are executed; the digest of the process-wide unit, prefix and conversion-type tables at every scope end, failed construction, parse end and history end must equal the digest at the corresponding start; registered symbols must work inside and fail outside.',
          'Only input-driven failures are exercised (no asynchronous exceptions).', '5/C09'),
+ 'C13': ('reference-model oracle over generated DIP trees + metamorphic relation between two renderings of one tree',
+         'Generated trees of groups and typed nodes (all literal forms, widths, arrays, blocks, tables, units, dotted names, typed parents, multi-level de-indentation) are rendered with random indentation widths, blank lines and comments; env.data(Format.TUPLE) incl. key order and Format.TYPE of the real parser must equal the model, and two renderings of one tree must give identical data; step budget on every parse.',
+         'Trusts vt/refmodel/dip_ref_c13.py (checked against the documented examples at worker start).', '5/C13'),
+ 'C14': ('reference-model oracle (interpreter with exact hand-written unit table) over definition/modification chains',
+         'Chains of a definition or declaration followed by typed/untyped modifications (zero, negative, false, none, empty string, same/other prefix, compound and custom units, arrays) anywhere in the hierarchy are parsed by the real code; the final value, type and unit must equal the model and the four must-fail classes (other dtype, other dimension, constant, declared-never-assigned) must raise.',
+         'Unit factors are hard-coded exact linear factors plus the $unit definitions of the program; buggy-twin interpreters classify the recorded mechanisms.', '5/C14'),
  'C19': ('external readers as oracle: gcc/g++/gfortran/rustc printer programs, bash declare -p, json/yaml/toml loaders and DIP re-parse read the real exporter output back',
          'For generated environments (every dtype/width, rank 1-3 arrays, none, quoted strings, boundary integers, 17-digit floats, dotted paths, units) and every back-end/option/selection the exported text is compiled or loaded by the format own reader and names, symbol set, declared type/width/signedness, shape, element order and values are compared with the environment; known defects are recognised by exact read-back signatures (buggy twins) and the affected symbols are removed and the file re-read so the rest stays strict.',
          'Trusts gcc 12, g++ 12, gfortran 12, rustc, bash 5 and the Python json/yaml/tomllib loaders as readers of their own formats.', '5/C19'),
